@@ -125,6 +125,20 @@ pub fn run(ctx: &mut Ctx) {
                 _ => (g.expr(&acc_ty, depth), None),
             }
         };
+        // work budget (gen::cost simulates the accumulator): a body that doubles a string / list per element, or a
+        // nested reduce over the accumulator, is legitimately unbounded work and says nothing about folds
+        {
+            let recv = E::Lit(CelValue::from_list(items.clone()));
+            let probe = match mac {
+                "reduce" => E::Method(Box::new(recv), "reduce".into(), vec![E::Var("acc".into()), E::Var(xname.clone()), body1.clone(), lit(0)]),
+                "map3" => E::Method(Box::new(recv), "map".into(), vec![E::Var(xname.clone()), body1.clone(), body2.clone().unwrap_or(lit(0))]),
+                m => E::Method(Box::new(recv), m.into(), vec![E::Var(xname.clone()), body1.clone()]),
+            };
+            if gen::too_heavy(&probe) {
+                rep.count("folds_skipped_over_work_budget");
+                return;
+            }
+        }
         // bodies are wrapped in logging calls so every evaluation is visible
         let b1 = call("obs", vec![lit(1), body1]);
         let b2 = body2.map(|b| call("obs", vec![lit(2), b]));
